@@ -66,7 +66,15 @@ func init() {
 	commands["c07"] = func(args []string) error {
 		out := NewOutput()
 		rng := NewRng(seedFromEnv(), "c07")
+		lateRegistrationPrelude()
+		reportLate(out, "C07", "filter")
 		g := lint.GlobalRegistry()
+		// a registry configuration under which every configurable lint leaves its default behaviour: a filtered
+		// registry that loses (or alters) the configuration then answers differently from the complete run
+		if cfgAll, err := lint.NewConfigFromString("[e_rsa_fermat_factorization]\nRounds = 0\n[e_subj_contains_html_entities]\nSkip = true\n" +
+			"[e_subj_orgunit_in_ca_cert]\nCrossCert = true\n[e_crl_next_update_invalid]\nSubscriberCRL = false\n"); err == nil {
+			g.SetConfiguration(cfgAll)
+		}
 		corpus := loadCorpus()
 		names := g.Names()
 		var srcs []string
@@ -79,6 +87,11 @@ func init() {
 			nFilters, nObjs, nSingle = 400, len(corpus.Certs), len(names)
 		}
 		certs := corpus.sampleCerts(rng, nObjs)
+		for _, cc := range corpus.Certs {
+			if strings.HasPrefix(cc.File, "html_entity_") || strings.HasPrefix(cc.File, "orgunit_in_ca_") || strings.Contains(cc.File, "ermat") {
+				certs = append(certs, cc)
+			}
+		}
 		for i, der := range manySanCerts() {
 			if c, err := x509.ParseCertificate(der); err == nil {
 				certs = append(certs, CorpusCert{fmt.Sprintf("generated-many-san-%d", i), der, c})
@@ -113,6 +126,9 @@ func init() {
 			if fr, err := g.Filter(f.opts()); err == nil && fr != g {
 				specs = append(specs, f)
 			}
+		}
+		for _, src := range srcs {
+			specs = append(specs, FilterSpec{IncludeSources: []string{src}}, FilterSpec{ExcludeSources: []string{src}})
 		}
 		single := append([]string{}, names...)
 		rng.Shuffle(len(single), func(i, j int) { single[i], single[j] = single[j], single[i] })
